@@ -88,7 +88,8 @@ func CheckDeterminism(run *core.Run, prog *load.Program) {
 					p := callee.Pkg().Path()
 					full := callee.FullName()
 					switch {
-					case p == "math/rand" || p == "math/rand/v2" || p == "crypto/rand":
+					case p == "math/rand" || p == "math/rand/v2" || p == "crypto/rand" || p == "hash/maphash":
+						// hash/maphash seeds are random per process (MakeSeed, the zero Hash, String/Bytes/Comparable)
 						run.Check("G-DET/random", fname+"→"+full, prog.Pos(s.Pos()), false, fname+" calls "+full)
 					case p == "time" && (callee.Name() == "Now" || callee.Name() == "Since" || callee.Name() == "Until"):
 						run.Check("G-DET/clock", fname+"→"+full, prog.Pos(s.Pos()), false, fname+" reads the clock ("+full+")")
@@ -177,6 +178,51 @@ func CheckDeterminism(run *core.Run, prog *load.Program) {
 			return true
 		})
 	})
+	// package-level initialisers run once per process: a random, clock or environment value computed there
+	// is as nondeterministic as one computed in a function
+	for _, pk := range prog.MoqPackages() {
+		for _, f := range pk.Syntax {
+			for _, d := range f.Decls {
+				gd, ok := d.(*ast.GenDecl)
+				if !ok || gd.Tok != token.VAR {
+					continue
+				}
+				for _, sp := range gd.Specs {
+					vs := sp.(*ast.ValueSpec)
+					for vi, val := range vs.Values {
+						owner := "_"
+						if vi < len(vs.Names) {
+							owner = vs.Names[vi].Name
+						}
+						ast.Inspect(val, func(x ast.Node) bool {
+							if _, isLit := x.(*ast.FuncLit); isLit {
+								return false // visited as a function of its own
+							}
+							call, ok := x.(*ast.CallExpr)
+							if !ok {
+								return true
+							}
+							callee, _ := typeutil.Callee(pk.TypesInfo, call).(*types.Func)
+							if callee == nil || callee.Pkg() == nil {
+								return true
+							}
+							p, full := callee.Pkg().Path(), callee.FullName()
+							where := "the initialiser of " + owner
+							switch {
+							case p == "math/rand" || p == "math/rand/v2" || p == "crypto/rand" || p == "hash/maphash":
+								run.Check("G-DET/random", where+"→"+full, prog.Pos(call.Pos()), false, where+" calls "+full+": a value that differs from process to process")
+							case p == "time" && (callee.Name() == "Now" || callee.Name() == "Since" || callee.Name() == "Until"):
+								run.Check("G-DET/clock", where+"→"+full, prog.Pos(call.Pos()), false, where+" reads the clock ("+full+")")
+							case full == "os.Getenv" || full == "os.LookupEnv" || full == "os.Environ" || full == "os.Getpid" || full == "os.Hostname" || full == "os.Getwd" || full == "os.UserHomeDir":
+								run.Check("G-DET/environment", where+"→"+full, prog.Pos(call.Pos()), false, where+" reads the process environment ("+full+")")
+							}
+							return true
+						})
+					}
+				}
+			}
+		}
+	}
 	run.Count("map_ranges", nRanges)
 	run.Floor("G-DET/map-range", 1)
 	// package-level variables are never written after initialisation: fresh generator instances start equal
